@@ -115,8 +115,16 @@ func (a *AST) computeFollows(n Node) {
 	switch v := n.(type) {
 	case *Concat:
 		for i := 0; i < len(v.Exprs)-1; i++ {
-			for _, p := range v.Exprs[i].lastPos() {
-				a.follows[p] = append(a.follows[p], v.Exprs[i+1].firstPos()...)
+			// The positions that can follow the i-th operand are the first positions of the next operand
+			// and, as long as the operands in between are nullable, of the ones after it.
+			for j := i + 1; j < len(v.Exprs); j++ {
+				for _, p := range v.Exprs[i].lastPos() {
+					a.follows[p] = append(a.follows[p], v.Exprs[j].firstPos()...)
+				}
+
+				if !v.Exprs[j].nullable() {
+					break
+				}
 			}
 		}
 
@@ -230,7 +238,7 @@ func (n *Concat) compute() {
 	}
 
 	n.comp = &computed{
-		nullable: false,
+		nullable: true,
 		firstPos: Poses{},
 		lastPos:  Poses{},
 	}
